@@ -98,7 +98,7 @@ try:
     PURE_FUNCS.update({f'{m_}.{n_}': getattr(_np, n_) for m_ in ('np', 'numpy') for n_ in ('zeros', 'ones', 'empty', 'vstack', 'hstack', 'argmax', 'argmin', 'arange', 'array', 'asarray', 'sort', 'argsort',
                                                                                             'flatnonzero', 'nonzero', 'where', 'sum', 'max', 'min', 'fromiter', 'clip', 'searchsorted', 'resize', 'tile', 'repeat', 'full', 'zeros_like', 'ones_like', 'isin', 'diff', 'abs', 'prod', 'power', 'log10', 'rint', 'any', 'all', 'amax', 'amin', 'cumsum', 'unique', 'stack', 'concatenate',
                                                                                             'count_nonzero', 'take_along_axis', 'expand_dims', 'partition', 'equal', 'logical_and', 'logical_not', 'logical_or')})
-    STD_CONSTS.update({'np.uint64': _np.uint64, 'np.int32': _np.int32, 'np.newaxis': None, 'numpy.newaxis': None, 'np.int64': _np.int64, 'np.float64': _np.float64, 'np.nan': float('nan'), 'np.inf': float('inf')})
+    STD_CONSTS.update({'np.uint8': _np.uint8, 'np.uint16': _np.uint16, 'np.uint32': _np.uint32, 'np.int8': _np.int8, 'np.int16': _np.int16, 'np.float32': _np.float32, 'np.float16': _np.float16, 'np.uint64': _np.uint64, 'np.int32': _np.int32, 'np.newaxis': None, 'numpy.newaxis': None, 'np.int64': _np.int64, 'np.float64': _np.float64, 'np.nan': float('nan'), 'np.inf': float('inf')})
     NDARRAY = _np.ndarray
 except Exception:          # pragma: no cover
     _np = None
@@ -741,6 +741,16 @@ def run_function(fdef, args, kwargs=None, env=None, budget=20000, call_hook=None
                 ev.bind(t, v, scope)
         elif isinstance(s, ast.AugAssign) and (isinstance(s.target, ast.Name) or (isinstance(s.target, ast.Attribute) and dotted(s.target)) or isinstance(s.target, ast.Subscript)):
             cur = ev.ev(ast.copy_location(type(s.target)(**{**{f_: getattr(s.target, f_) for f_ in s.target._fields}, 'ctx': ast.Load()}), s.target), scope)
+            if _np is not None and isinstance(cur, _np.generic) and isinstance(s.op, (ast.Add, ast.Sub, ast.Mult)):
+                # arithmetic of the element type (a uint8 counter wraps at 256, as it does in the analysed code)
+                import warnings as _w
+                rhs = ev.ev(s.value, scope)
+                with _w.catch_warnings():
+                    _w.simplefilter('ignore')
+                    v = cur + cur.dtype.type(rhs) if isinstance(s.op, ast.Add) and isinstance(rhs, int) and _np.issubdtype(cur.dtype, _np.integer) else \
+                        {ast.Add: lambda: cur + rhs, ast.Sub: lambda: cur - rhs, ast.Mult: lambda: cur * rhs}[type(s.op)]()
+                ev.bind(s.target, v, scope)
+                return
             if _np is not None and isinstance(cur, _np.generic):
                 cur = cur.item()
             if isinstance(cur, (int, float, str)):
